@@ -21,7 +21,7 @@ def make(ndim, nvars, internal, pattern, strcoord):
     shape = tuple(sizes[d] for d in dims)
     whole = npr.rand(*shape) < 0.35 if shape else np.array(False)            # cells missing in every variable
     for v in range(nvars):
-        vdims = tuple(dims) + (("t",) if (internal and v == 0) else ())
+        vdims = tuple(dims) + (("time",) if (internal and v == 0) else ())
         vshape = shape + ((3,) if (internal and v == 0) else ())
         arr = npr.rand(*vshape) + 1.0
         mask = whole
@@ -39,7 +39,7 @@ def make(ndim, nvars, internal, pattern, strcoord):
             arr[npr.rand(*vshape) < 0.2] = np.inf
         data_vars[f"v{v}"] = (vdims, arr)
     if internal:
-        coords["t"] = [0, 1, 2]
+        coords["time"] = [0, 1, 2]
     return xr.Dataset(data_vars, coords=coords), dims
 
 
@@ -60,13 +60,14 @@ def oracle_missing(ds, dims, setting, method):
 
 def check(ndim, nvars, internal, pattern, strcoord, method):
     ds, dims = make(ndim, nvars, internal, pattern, strcoord)
-    ignore = {"t"} if internal else None
+    # the documented spellings: a single name as a string, or a collection of names
+    ignore = ("time" if ndim % 2 else {"time"}) if internal else None
     with quiet():
         fn_args, cases = find_missing_cases(ds, ignore_dims=ignore, method=method)
     probs = []
-    if tuple(fn_args) != tuple(d for d in ds.dims if d != "t"):
+    if tuple(fn_args) != tuple(d for d in ds.dims if d != "time"):
         probs.append(f"fn_args {fn_args} are not the non-ignored dimensions {tuple(ds.dims)}")
-    order = [d for d in ds.dims if d != "t"]
+    order = [d for d in ds.dims if d != "time"]
     grid = list(itertools.product(*[list(ds[d].values) for d in order]))
     want = [c for c in grid if oracle_missing(ds, dims, dict(zip(order, c)), method)]
     got = [tuple(c) for c in cases]
